@@ -20,12 +20,23 @@
 //	q<i>              POP3: send QUIT and read the reply only                               -> +OK
 //	e<i>              wait until the server has closed session i's connection               -> +OK/<messages left>
 //
+//	tls <op,…>        as life, but the POP3 server runs with TLSEnabled+ForceTLS (self-signed certificate made at
+//	                  run time) and POP3 clients speak TLS; extra op xP: a plain-text client on the TLS port      -> dropped
+//
 //	ret <period> <n> <when>  retention scanner over n mailboxes: Start/Join and DoScan against cancellation
 package main
 
 import (
 	"bufio"
 	"bytes"
+	"crypto/ecdsa"
+	"crypto/elliptic"
+	"crypto/rand"
+	"crypto/tls"
+	"crypto/x509"
+	"crypto/x509/pkix"
+	"encoding/pem"
+	"math/big"
 	"context"
 	"fmt"
 	"net"
@@ -100,6 +111,8 @@ type world struct {
 	rsDone     chan struct{}
 	hubEvents  *recorder
 	gs         *gateStore
+	tls        bool
+	tmpDir     string
 	openByProt [2]int
 }
 
@@ -147,7 +160,35 @@ func (r *recorder) Delete(mailbox string, id string) error  { return nil }
 
 func setenv(k, v string) { os.Setenv(k, v) }
 
-func newWorld(retention string) (*world, error) {
+// selfSigned writes a fresh self-signed certificate and key as PEM files.
+func selfSigned(dir string) (certFile, keyFile string, err error) {
+	key, err := ecdsa.GenerateKey(elliptic.P256(), rand.Reader)
+	if err != nil {
+		return "", "", err
+	}
+	tmpl := &x509.Certificate{
+		SerialNumber: big.NewInt(1), Subject: pkix.Name{CommonName: "localhost"},
+		NotBefore: time.Now().Add(-time.Hour), NotAfter: time.Now().Add(24 * time.Hour),
+		KeyUsage: x509.KeyUsageDigitalSignature, ExtKeyUsage: []x509.ExtKeyUsage{x509.ExtKeyUsageServerAuth},
+		IPAddresses: []net.IP{net.ParseIP("127.0.0.1")},
+	}
+	der, err := x509.CreateCertificate(rand.Reader, tmpl, tmpl, &key.PublicKey, key)
+	if err != nil {
+		return "", "", err
+	}
+	kb, err := x509.MarshalECPrivateKey(key)
+	if err != nil {
+		return "", "", err
+	}
+	certFile, keyFile = dir+"/cert.pem", dir+"/key.pem"
+	if err = os.WriteFile(certFile, pem.EncodeToMemory(&pem.Block{Type: "CERTIFICATE", Bytes: der}), 0o600); err != nil {
+		return "", "", err
+	}
+	err = os.WriteFile(keyFile, pem.EncodeToMemory(&pem.Block{Type: "EC PRIVATE KEY", Bytes: kb}), 0o600)
+	return certFile, keyFile, err
+}
+
+func newWorld(retention string, tlsPOP3 bool) (*world, error) {
 	storage.Constructors["memory"] = mem.New
 	for _, e := range os.Environ() {
 		if strings.HasPrefix(e, "INBUCKET_") {
@@ -162,11 +203,30 @@ func newWorld(retention string) (*world, error) {
 	setenv("INBUCKET_STORAGE_RETENTIONPERIOD", retention)
 	setenv("INBUCKET_STORAGE_RETENTIONSLEEP", "40ms")
 	setenv("INBUCKET_WEB_MONITORHISTORY", "5")
+	w := &world{tls: tlsPOP3}
+	if tlsPOP3 {
+		base := os.Getenv("VERIF_WORKDIR")
+		if base == "" {
+			base = os.TempDir()
+		}
+		dir, err := os.MkdirTemp(base, "c19tls")
+		if err != nil {
+			return nil, err
+		}
+		w.tmpDir = dir
+		cf, kf, err := selfSigned(dir)
+		if err != nil {
+			return nil, err
+		}
+		setenv("INBUCKET_POP3_TLSENABLED", "true")
+		setenv("INBUCKET_POP3_FORCETLS", "true")
+		setenv("INBUCKET_POP3_TLSCERT", cf)
+		setenv("INBUCKET_POP3_TLSPRIVKEY", kf)
+	}
 	conf, err := config.Process()
 	if err != nil {
 		return nil, err
 	}
-	w := &world{}
 	ctx, cancel := context.WithCancel(context.Background())
 	w.cancel = cancel
 	extHost := extension.NewHost()
@@ -215,6 +275,18 @@ func waitCh(c chan struct{}, d time.Duration) bool {
 	case <-time.After(d):
 		return false
 	}
+}
+
+// dial connects to server p; POP3 clients speak TLS when the server is in ForceTLS mode.
+func (w *world) dial(p int) (net.Conn, error) {
+	conn, err := net.DialTimeout("tcp", w.addr[p], longWait)
+	if err != nil {
+		return nil, err
+	}
+	if p == 1 && w.tls {
+		return tls.Client(conn, &tls.Config{InsecureSkipVerify: true}), nil
+	}
+	return conn, nil
 }
 
 // ---- client sessions -------------------------------------------------------------------
@@ -377,8 +449,8 @@ func (w *world) drain(p int, expectBlocked bool) string {
 	return "blocked"
 }
 
-func runLife(ops []string) []string {
-	w, err := newWorld("1h")
+func runLife(ops []string, tlsPOP3 bool) []string {
+	w, err := newWorld("1h", tlsPOP3)
 	if err != nil {
 		return []string{"SETUP-FAILED", vh.HS(err.Error())}
 	}
@@ -422,6 +494,9 @@ func runLife(ops []string) []string {
 		}
 	}
 	defer func() {
+		if w.tmpDir != "" {
+			os.RemoveAll(w.tmpDir)
+		}
 		w.gs.open()
 		holdNext[0].Store(nil)
 		holdNext[1].Store(nil)
@@ -465,12 +540,37 @@ func runLife(ops []string) []string {
 				p = 1
 			}
 			outs = append(outs, w.drain(p, w.openByProt[p] > 0))
+		case o == "xP":
+			// a plain-text client (or a port scanner) on the TLS port: it must simply be dropped
+			conn, err := net.DialTimeout("tcp", w.addr[1], longWait)
+			if err != nil {
+				outs = append(outs, "refused")
+				continue
+			}
+			c := &client{proto: 1, conn: conn, r: bufio.NewReader(conn)}
+			conn.SetWriteDeadline(time.Now().Add(longWait))
+			conn.Write([]byte("USER plain\r\nQUIT\r\n"))
+			dropped := false
+			for i := 0; i < 8 && !dropped; i++ {
+				conn.SetReadDeadline(time.Now().Add(longWait))
+				if _, err := c.r.ReadString('\n'); err != nil {
+					ne, isNet := err.(net.Error)
+					dropped = !(isNet && ne.Timeout())
+					break
+				}
+			}
+			conn.Close()
+			if dropped {
+				outs = append(outs, "dropped")
+			} else {
+				outs = append(outs, "alive")
+			}
 		case o == "nS" || o == "nP":
 			p := 0
 			if o == "nP" {
 				p = 1
 			}
-			conn, err := net.DialTimeout("tcp", w.addr[p], longWait)
+			conn, err := w.dial(p)
 			if err != nil {
 				outs = append(outs, "refused")
 				continue
@@ -496,7 +596,7 @@ func runLife(ops []string) []string {
 				h = &holdReq{parked: make(chan struct{}), release: make(chan struct{})}
 				holdNext[p].Store(h)
 			}
-			conn, err := net.DialTimeout("tcp", w.addr[p], longWait)
+			conn, err := w.dial(p)
 			if err != nil {
 				holdNext[p].Store(nil)
 				outs = append(outs, "refused")
@@ -626,7 +726,7 @@ func within(d time.Duration, f func()) bool {
 //	        DoScan     — cancelled at <when> (pre: before the call, mid: after ~2 mailboxes, none): returns within
 //	                     the deadline: returned|blocked, and well before a full pass would end: early|late
 func runRet(period string, n int, when string) []string {
-	w, err := newWorld(period)
+	w, err := newWorld(period, false)
 	if err != nil {
 		return []string{"SETUP-FAILED"}
 	}
@@ -709,12 +809,12 @@ func exec(kind string, in []string) []string {
 
 func run1(kind string, in []string) []string {
 	switch kind {
-	case "life":
+	case "life", "tls":
 		var ops []string
 		if in[0] != "-" {
 			ops = strings.Split(in[0], ",")
 		}
-		return runLife(ops)
+		return runLife(ops, kind == "tls")
 	case "ret":
 		return runRet(in[0], vh.AtoI(in[1]), in[2])
 	}
